@@ -11,7 +11,7 @@ new handler), further events, a final restart and an audit of all files.
                     after every event; plus the callback inventory (ast walk) against the model's;
                     plus the octet-level start-up of the model (newest_line: last line of the
                     newest file that has an octet) against the text the code really hands to
-                    json.loads / eval, on directories whose last line has up to 10^6 octets.
+                    json.loads / eval, on directories whose last line has up to 2^22+1 octets.
 
 RECORD-SIZE DIMENSION.  A payload id is an index into PAYLOADS or ['sz', L]: a payload built at the
 moment of the call so that the record line (newline included) has exactly L octets.  L ranges from
@@ -31,6 +31,7 @@ unpatched code with cfg_orig.
 import ast
 import json
 import os
+import re
 import shutil
 import sys
 import tempfile
@@ -48,6 +49,7 @@ TRUSTED = [
     'time.time() is driven by the check: strictly increasing 10-digit epoch seconds, so "%s.msg" names sort '
     'in creation order',
     'classification of a line by the check (json.loads of the stdlib) = what get_last_seq_and_file sees',
+    'the text start-up parses is observed by replacing the names json and eval in the handler module by recorders',
 ]
 ASSUMPTIONS = [
     'json: a line written by write_msg is valid JSON iff it is one complete record (validated at every octet '
@@ -56,6 +58,11 @@ ASSUMPTIONS = [
     'names: file names sort in creation order (see trusted base)',
     'write_msg_max_size is compared in octets (check_msg_config has multiplied the MB value by 1024*1024)',
     'one peer per handler; foreign files in the msg directory only in the seeded init cases',
+    'record sizes: the abstract model has no notion of line length in start-up (a line is a list element); that the '
+    'code has none either is what the sized records check: lines of 46 .. 70001 octets (thorough 2^20+1) written by the '
+    'real callbacks, restarts while the last line is longer than 4096 / 65536 octets (counts in record_sizes), and the '
+    'octet-level model (YLog.newest_line, theorems C20_recovery_reads_last_line / _octets_refine) compared with the text '
+    'the code parses; C20_recovery_independent_of_sizes proves for the model that sizes and thresholds never matter',
 ]
 
 PEER = '10.0.0.2'
@@ -174,6 +181,8 @@ class Peer(object):
 
 
 _setup_done = {}
+POOL = []
+TAILS = {'starts': 0, 'max': 0, 'longer_than_4096': 0, 'longer_than_65536': 0}
 SIZED = {'exact': 0, 'other': 0, 'lengths': set()}
 PARSED = []        # what get_last_seq_and_file handed to json.loads (1, text) / eval (2, text)
 
@@ -238,7 +247,10 @@ class World(object):
         self.dh = setup()
         self.root = root
         self.thr = thr
-        self.dir = tempfile.mkdtemp(prefix='case', dir=root)
+        # a world created on given contents has its msg directory before the first start anyway:
+        # such directories are emptied and reused (the sweep over cut offsets makes thousands)
+        self.pooled = files is not None
+        self.dir = POOL.pop() if self.pooled and POOL else tempfile.mkdtemp(prefix='case', dir=root)
         self.msgdir = os.path.join(self.dir, PEER, 'msg')
         self.h = None
         self.exits = 0
@@ -252,14 +264,19 @@ class World(object):
         self.parsed = []
         self.maxline = 0           # longest line written (octets)
         if files is not None:
-            os.makedirs(self.msgdir)
+            os.makedirs(self.msgdir, exist_ok=True)
             for name, data in files.items():
                 with open(os.path.join(self.msgdir, name), 'w') as f:
                     f.write(data)
 
     def close(self):
         self.kill()
-        shutil.rmtree(self.dir, ignore_errors=True)
+        if self.pooled:
+            for n in os.listdir(self.msgdir):
+                os.unlink(os.path.join(self.msgdir, n))
+            POOL.append(self.dir)
+        else:
+            shutil.rmtree(self.dir, ignore_errors=True)
 
     # --- agent life cycle
     def conf(self, write_keepalive=False):
@@ -274,6 +291,12 @@ class World(object):
         self.conf()
         if self.newest_empty_older_not():
             self.flags.add('rot')
+        tail = self.tail_line()
+        TAILS['starts'] += 1
+        TAILS['max'] = max(TAILS['max'], len(tail))
+        for b in (4096, 65536):
+            if len(tail) > b:
+                TAILS['longer_than_%d' % b] += 1
         h = self.dh.DefaultHandler()
         del PARSED[:]
         try:
@@ -305,6 +328,22 @@ class World(object):
             with open(os.path.join(self.msgdir, n), 'r') as f:
                 out.append((n, f.read()))
         return out
+
+    def tail_line(self):
+        """the last line (terminated or not) of the newest file that has an octet"""
+        for _, data in reversed(self.read()):
+            if data:
+                return data.splitlines(True)[-1]
+        return ''
+
+    def parsed_obs(self):
+        """what the last start-up handed to json.loads / eval: [reader, octets, head, tail]"""
+        from session import Bytes
+        if not self.parsed:
+            return [0, 0, Bytes(b''), Bytes(b'')]
+        k, text = self.parsed[-1]
+        b = text.encode('utf-8') if isinstance(text, str) else bytes(text)
+        return [k, len(b), Bytes(b[:24]), Bytes(b[-4:])]
 
     def newest_empty_older_not(self):
         fs = self.read()
@@ -469,6 +508,7 @@ class World(object):
             fails.append(('restart refused to start (sys.exit in get_last_seq_and_file)', None))
         idx = 0
         prev = None
+        highest = None
         complete = 0
         for name, data in self.read():
             for text, term in split_lines(data):
@@ -488,6 +528,11 @@ class World(object):
                 complete += 1
                 if prev is not None and rec['seq'] != prev + 1:
                     fails.append(('sequence number %d follows %d' % (rec['seq'], prev), idx))
+                elif prev is None and highest is not None and rec['seq'] <= highest:
+                    # "numbers are never reused": also on the far side of a damaged line
+                    fails.append(('sequence number %d is used again (numbers up to %d are already on disk)'
+                                  % (rec['seq'], highest), idx))
+                highest = rec['seq'] if highest is None else max(highest, rec['seq'])
                 exp = self.expected[idx] if idx < len(self.expected) else None
                 if isinstance(exp, dict) and self.tear is None:
                     if any(rec[k] != v for k, v in exp.items()):
@@ -507,6 +552,10 @@ class World(object):
           ser : (original code) the damaged line is exactly the line of an unserialisable payload, or a
                 refusal to start
           rot : (original code) numbering jumps back after a start on an empty newest file"""
+        return self.explain(fails)[0]
+
+    def explain(self, fails):
+        """(known id or None, the first failure that no known class explains or None)"""
         halves = [j for j, e in enumerate(self.expected) if isinstance(e, dict) and 'msg' not in e]
         ids = []
         for w, i in fails:
@@ -518,19 +567,21 @@ class World(object):
             elif 'rot' in self.flags and 'follows' in w:
                 ids.append(K_ROT)
             else:
-                return None
-        return ids[0] if ids else None
+                return None, w
+        return (ids[0] if ids else None), None
 
 
 # ---------------------------------------------------------------------------------
 # generators
 # ---------------------------------------------------------------------------------
-def rand_event(rng, bad_ok=True):
+def rand_event(rng, bad_ok=True, sizes=()):
     cb = rng.choice(CALLBACKS + ['update_received'] * 3)
     if cb in NO_PAYLOAD:
         pid = 0
     elif bad_ok and rng.random() < 0.15:
         pid = rng.choice(BAD)
+    elif sizes and rng.random() < 0.25:
+        pid = ['sz', rng.choice(sizes)]
     else:
         pid = rng.choice(GOOD)
     wk = rng.random() < 0.6
@@ -548,9 +599,66 @@ def base_histories(ctx):
     hs.append([['ev', cb, BAD[i % len(BAD)], True] for i, cb in enumerate(CALLBACKS) if cb not in NO_PAYLOAD][:6])
     hs.append([['ev', 'update_received', 1, True]] * 4)
     n_rand, length = (10, 7) if ctx.thorough else (5, 5)
+    sizes = SIZES_THOROUGH if ctx.thorough else SIZES_QUICK
     for _ in range(n_rand):
-        hs.append([rand_event(rng) for _ in range(rng.randrange(3, length + 1))])
+        hs.append([rand_event(rng, sizes=sizes) for _ in range(rng.randrange(3, length + 1))])
     return hs
+
+
+def offsets_for(sz, rng, thorough):
+    """octet offsets at which a write of sz octets is cut: all of them for a short line; for a long
+    one the ends, the middle, both sides of every block boundary counted from either end, and a
+    few seeded random ones"""
+    if sz <= 400:
+        return list(range(0, sz + 1)) if sz else [0]
+    ks = {0, 1, 2, sz // 2, sz - 2, sz - 1, sz}
+    for b in BLOCKS:
+        for d in (-1, 0, 1):
+            for k in (b + d, sz - b + d):
+                if 0 < k < sz:
+                    ks.add(k)
+    ks.update(rng.randrange(1, sz) for _ in range(8 if thorough else 3))
+    return sorted(ks)
+
+
+def size_histories(ctx):
+    """the record-size dimension: (threshold, history) pairs around one record of L octets"""
+    rng = ctx.rng
+    sizes = SIZES_THOROUGH if ctx.thorough else SIZES_QUICK
+    small = ['ev', 'send_open', 0, True]
+    upd = ['ev', 'update_received', 1, True]
+    R = ['restart']
+    out = []
+    for n, L in enumerate(sizes):
+        def big(cb='update_received', d=0):
+            return ['ev', cb, ['sz', L + d], True]
+        other = ('open_received', 'on_update_error', 'send_open', 'notification_received')[n % 4]
+        hs = [
+            [small, upd, big(), R, upd, small, R],                  # restart right after the huge record
+            [small, big(other), R, upd, R],                          # ... written by a callback that never rotates
+            [small, big(), upd, R, small, R],                        # the huge record is not the last one
+            [big(), R, big(d=1), R, big(d=-1), small, R],            # a file of huge records only
+            [upd, big(), ['crash', 'send_open', 0, True, 0], upd, R],                 # death before the next record
+            [upd, big(), ['crash', 'update_received', 1, True, 10 ** 9], upd, R],     # ... right after it
+        ]
+        nplain = len(hs)
+        # the huge record itself is torn: k octets from its start / -k octets from its end
+        cuts = [0, 1, -1, -2, -(L // 2), 10 ** 9] + [-(b + d) for b in BLOCKS for d in (-1, 0, 1) if b + d < L]
+        if not ctx.thorough and len(cuts) > 14:
+            cuts = cuts[:6] + [-4095, -4096, -4097] + rng.sample(cuts[6:], 5)
+        elif L > 70000:                                   # the very long ones cost seconds each
+            cuts = cuts[:6] + [-4095, -4096, -4097, -65535, -65536, -65537] + rng.sample(cuts[6:], 4)
+        for k in cuts:
+            hs.append([small, big(), ['crash', 'update_received', ['sz', L], True, k]] + SUFFIX)
+        # thresholds: never / smaller than the record / exactly its size and one more (>=) /
+        # larger than the record but reached by the next small one / much larger; two fixed ones
+        thrs = [1 << 40, max(2, L // 2), L + 300, L, L + 1, 3 * L + 500, 4096, 5000]
+        if not ctx.thorough or L > 70000:
+            thrs = thrs[:3] + rng.sample(thrs[3:], 1)
+        for thr in thrs:
+            for i, h in enumerate(hs):
+                out.append((thr, h, i < nplain))
+    return out
 
 
 def thresholds(root, hist, rng, thorough):
@@ -596,6 +704,57 @@ SEEDS = [
     ('newest full, older torn', {'1600000001.0.msg': '{"t": 1.0, "se\n',
                                  '1600000002.0.msg': '{"t": 1.0, "seq": 9, "type": 1, "msg": null}\n'}),
 ]
+
+
+def _rec(seq, n):
+    """a record line of exactly n octets, newline included"""
+    head = '{"t": 2.0, "seq": %d, "type": 2, "msg": "' % seq
+    return head + 'x' * (n - len(head) - 3) + '"}\n'
+
+
+SMALL = '{"t": 1.0, "seq": 3, "type": 1, "msg": null}\n'
+SEEDS_THOROUGH = []
+for _n in (4095, 4096, 4097, 5000, 8193, 65537, 70000, (1 << 20) + 1, (1 << 22) + 1):
+    (SEEDS if _n <= 70000 else SEEDS_THOROUGH).extend([
+        ('last record of %d octets' % _n, {'1600000001.0.msg': SMALL + _rec(4, _n)}),
+        ('only a record of %d octets' % _n, {'1600000001.0.msg': _rec(1, _n)}),
+        ('record of %d octets in an older file, newest empty' % _n,
+         {'1600000001.0.msg': SMALL + _rec(4, _n), '1600000002.0.msg': ''}),
+        ('torn tail of %d octets' % _n, {'1600000001.0.msg': SMALL + _rec(4, _n + 50)[:_n]}),
+        ('record of %d octets without its newline' % _n, {'1600000001.0.msg': SMALL + _rec(4, _n + 1)[:-1]}),
+        ('legacy line of %d octets' % _n, {'1600000001.0.msg': SMALL + '[1.0, 7, 2, "%s"]\n' % ('y' * (_n - 16))}),
+        ('foreign line of %d octets' % _n, {'1600000001.0.msg': SMALL + 'z' * (_n - 1) + '\n'}),
+        ('short record after one of %d octets' % _n,
+         {'1600000001.0.msg': _rec(4, _n) + '{"t": 1.0, "seq": 5, "type": 1, "msg": null}\n'}),
+    ])
+SEEDS.append(SEEDS_THOROUGH[0])          # one line of 2^20+1 octets in the quick tier too
+
+
+RUNS = re.compile(rb'(.)\1{63,}', re.S)
+
+
+def coq_text(data):
+    """file contents -> Coq term of type bytes; runs of 64 or more equal octets as `rep x n`"""
+    b = data.encode('utf-8')
+    parts, i = [], 0
+    for m in list(RUNS.finditer(b)) + [None]:
+        j = m.start() if m else len(b)
+        if j > i:
+            parts.append('[%s]' % '; '.join('%d' % x for x in b[i:j]))
+        if m:
+            parts.append('rep %d %d' % (b[m.start()], m.end() - m.start()))
+            i = m.end()
+    return '(%s)' % ' ++ '.join(parts) if parts else '[]'
+
+
+def coq_octets(files):
+    """directory contents -> Coq term: list of file texts, newest first"""
+    return '[%s]' % '; '.join(coq_text(files[n]) for n in sorted(files, reverse=True))
+
+
+def literal_cost(files):
+    """octets that coq_octets would write out one by one"""
+    return sum(len(RUNS.sub(b'', d.encode('utf-8'))) for d in files.values())
 
 
 def coq_disk(files):
@@ -655,22 +814,35 @@ def run_case(root, thr, files, evs):
     return w, obs
 
 
-def finish(w, case, obs, skip, cases, violations, stats, sliced=False):
+def finish(w, case, obs, skip, cases, violations, stats, sliced=False, octets=False):
     fails = w.audit()
     stats['cases'] += 1
     for fl in w.flags:
         stats['class_' + fl] = stats.get('class_' + fl, 0) + 1
     if fails:
-        kid = w.known_id(fails)
+        kid, new = w.explain(fails)
         stats['failing'] = stats.get('failing', 0) + 1
-        violations.append({'what': '%s [history %s]' % (fails[0][0], ' ; '.join(w.events)),
-                           'input': case, 'all': [f[0] for f in fails][:6], 'known': kid})
+        violations.append({'what': '%s [threshold %d; history %s]' % (new or fails[0][0], w.thr, ' ; '.join(w.events)),
+                           'input': case, 'all': [f[0] for f in fails][:6], 'known': kid,
+                           'crashes': sum(1 for e in case['events'] if e[0] == 'crash')})
     elif w.tear is None:
         stats['passing_nontrivial'] += 1 if w.nrep >= 2 else 0
     model = 'sx_trace %d (trace_from %s %d %s [%s])' % (skip, CFG, w.thr, coq_disk(case['files'] or {}),
                                                        '; '.join(w.events))
     cases.append((model, obs if sliced else obs[skip:], case))
+    if octets:
+        octet_case(w, case, cases, stats)
     w.close()
+
+
+def octet_case(w, case, cases, stats):
+    """octet level of start-up: the history ends with a (re)start, so the directory is what that
+    start-up read; the model's newest_line on these octets against the text the code parsed"""
+    files = dict(w.read())
+    model = 'sx_parsed (newest_line %s)' % coq_octets(files)
+    cases.append((model, w.parsed_obs(), dict(case, level='octets')))
+    stats['octet_level_cases'] = stats.get('octet_level_cases', 0) + 1
+    stats['octet_level_longest_line'] = max(stats.get('octet_level_longest_line', 0), len(w.tail_line()))
 
 
 def run(ctx):
@@ -698,12 +870,18 @@ def run(ctx):
             w, obs = run_case(root, thr, None, evs)
             finish(w, describe(thr, None, evs), obs, 0, cases, violations, stats)
         # 1. seeded directories: init on foreign / damaged contents (correspondence of init only)
-        for what, files in SEEDS:
+        for what, files in SEEDS + (SEEDS_THOROUGH[1:] if ctx.thorough else []):
             evs = [['ev', 'send_open', 0, True], ['restart']]
             w, obs = run_case(root, 1 << 40, files, evs)
             model = 'sx_trace 0 (trace_from %s %d %s [%s])' % (CFG, w.thr, coq_disk(files), '; '.join(w.events))
-            cases.append((model, obs, describe(1 << 40, files, evs)))
+            cases.append((model, obs, describe(1 << 40, files if sum(map(len, files.values())) < 2000 else what,
+                                               evs)))
             stats['cases'] += 1
+            w.close()
+            # the same directory at the octet level: what does start-up parse?
+            w = World(root, 1 << 40, files=files)
+            w.start()
+            octet_case(w, {'thr': 1 << 40, 'files': what, 'events': [], 'code': CODE}, cases, stats)
             w.close()
         # 2. histories x thresholds: plain, restart after every event, crash at every octet offset
         hists = base_histories(ctx)
@@ -733,7 +911,7 @@ def run(ctx):
                     snap = w0.snapshot()
                     sz = snap['pending'][2]
                     w0.close()
-                    offsets = list(range(0, sz + 1)) if sz else [0]
+                    offsets = offsets_for(sz, rng, ctx.thorough)
                     for k in offsets:
                         w = World.restore(root, thr, snap)
                         w.crash_finish(k)
@@ -747,9 +925,19 @@ def run(ctx):
                             stats['json_assumption_checked'] += 1
                         stats['offsets_swept'] += 1
                         finish(w, describe(thr, None, evs), obs, i + 1, cases, violations, stats, sliced=True)
+        # 3. the record-size dimension
+        budget = 60 if ctx.thorough else 24
+        for thr, evs, plain in size_histories(ctx):
+            w, obs = run_case(root, thr, None, evs)
+            stats['rotations_max'] = max(stats['rotations_max'], len(obs[-1][0]) - 1)
+            stats['size_cases'] = stats.get('size_cases', 0) + 1
+            oct_ok = plain and budget > 0 and literal_cost(dict(w.read())) <= 12000
+            budget -= 1 if oct_ok else 0
+            finish(w, describe(thr, None, evs), obs, 0, cases, violations, stats, octets=oct_ok)
         inv, extra_cbs = inventory()
     finally:
         os.fsync = real_fsync
+        del POOL[:]
         for d in os.listdir(root):
             if d.startswith('case'):
                 shutil.rmtree(os.path.join(root, d), ignore_errors=True)
@@ -757,20 +945,30 @@ def run(ctx):
         mism.append({'what': 'methods outside the modelled callback list write the log: %s' % extra_cbs})
     # correspondence in Coq
     if ctx.coq_ok:
-        per = 250
-        texts = []
+        texts, starts = [], []
         items = [('sx_inventory', inv, 'inventory')] + cases
-        for i in range(0, len(items), per):
-            body = ';\n'.join('(%s, %s)' % (m, coq_sx(o)) for m, o, _ in items[i:i + per])
-            texts.append('Definition cases : list (sx * sx) := [\n%s\n].\nEval vm_compute in (mismatches cases).\n'
-                         % body)
+        cur, cur_len, start = [], 0, 0
+        per = min(500, max(250, -(-len(items) // 15)))      # one wave of parallel coqc runs if possible
+        for n, (m, o, _) in enumerate(items):               # a shard: at most `per` cases / 600 kB of text
+            t = '(%s, %s)' % (m, coq_sx(o))
+            if cur and (len(cur) >= per or cur_len + len(t) > 600000):
+                texts.append(cur)
+                starts.append(start)
+                cur, cur_len, start = [], 0, n
+            cur.append(t)
+            cur_len += len(t)
+        texts.append(cur)
+        starts.append(start)
+        texts = ['Definition cases : list (sx * sx) := [\n%s\n].\nEval vm_compute in (mismatches cases).\n'
+                 % ';\n'.join(c) for c in texts]
+        stats['case_files'] = len(texts)
         for kk, (rc, out) in enumerate(common.coq_eval_shards(ctx.prop, texts, imports=IMPORTS)):
             idx = common.parse_nats(out)
             if rc != 0 or idx is None:
                 mism.append({'what': 'case file %d does not evaluate: %s' % (kk, common.first_error(out))})
                 continue
             for i in idx:
-                m, o, case = items[kk * per + i]
+                m, o, case = items[starts[kk] + i]
                 mism.append({'what': 'model (%s) and implementation differ' % CFG, 'input': case,
                              'impl': o, 'model_expr': m[:2000]})
     else:
@@ -779,18 +977,34 @@ def run(ctx):
                         [True, False, True]]
         if inv != inv_expected:
             mism.append({'what': 'callback inventory changed', 'input': inv})
+    violations.sort(key=lambda v: (v['known'] is not None, v['crashes'], len(v['input']['events'])))
     kn = {}
     for v in violations:
         kn[v['known']] = kn.get(v['known'], 0) + 1
     stats['failing_by_class'] = {str(k): v for k, v in kn.items()}
     stats['code_version_modelled'] = CFG
     stats['histories'] = len(hists)
+    stats['record_sizes'] = {'sized_records_written': SIZED['exact'] + SIZED['other'],
+                             'of_exactly_the_wanted_length': SIZED['exact'],
+                             'distinct_lengths': len(SIZED['lengths']),
+                             'lengths_min_max': [min(SIZED['lengths'] or [0]), max(SIZED['lengths'] or [0])],
+                             'wanted': SIZES_THOROUGH if ctx.thorough else SIZES_QUICK,
+                             'starts': TAILS['starts'], 'longest_line_a_start_had_to_find': TAILS['max'],
+                             'starts_with_last_line_longer_than_4096': TAILS['longer_than_4096'],
+                             'starts_with_last_line_longer_than_65536': TAILS['longer_than_65536']}
     samples = [c[2] for c in cases[:2]] + [cases[len(cases) // 2][2], cases[-1][2]]
     return {'evaluations': len(cases), 'distinct': stats['passing_nontrivial'] + stats.get('failing', 0),
             'rule': 'histories over the 9 callbacks (all of them once, keepalive option on/off, serialisable and '
                     'unserialisable payloads, seeded random) x thresholds at/next to occurring file sizes x '
                     '{plain, restart after every event, crash at every octet offset of a write + 2 events + '
-                    'restart}; non-trivial = at least two lines written and audited, or a failing audit; '
+                    'restart}; RECORD SIZES: every payload may be a sized one (line of exactly L octets, L from '
+                    'the smallest record over 100, 4000, 4095/4096/4097, 5000, 8193, 20000, 65537 to 70000; '
+                    'thorough: every power of two 512..65536 -1/+0/+1 and up to 2^20+1) and for every L dedicated histories (restart right after the huge record / '
+                    'one event later / only huge records / crash before and after the following record / the '
+                    'huge record torn next to every block boundary) x thresholds below, at, above the record; '
+                    'seeded directories with last lines up to 2^20+1 (thorough 2^22+1) octets; octet-level start-up (model '
+                    'newest_line vs. the text the code parses); '
+                    'non-trivial = at least two lines written and audited, or a failing audit; '
                     'distinct by (threshold, history, offset)',
             'samples': samples, 'mismatches': mism, 'violations': violations, 'extra': stats}
 
@@ -805,7 +1019,10 @@ def replay(ctx, obj):
         w, obs = run_case(root, case['thr'], case.get('files'), case['events'])
         fails = w.audit()
         for n, d in w.read():
-            print(n, repr(d))
+            print('file %s: %d octets' % (n, len(d)))
+            for t, term in split_lines(d):
+                print('   %6d octets%s  %s' % (len(t) + (1 if term else 0), '' if term else ' (no newline)',
+                                              t if len(t) <= 110 else t[:80] + ' ... ' + t[-25:]))
         print('history:', ' ; '.join(w.events))
         print('observed:', obs[-1])
         for f in fails:
